@@ -217,7 +217,7 @@ def known_meta_product(task, rec, exc):
     """Known finding K-C06-meta-product: see /verif/known_findings.json."""
     meta_cfg = task.cfgspec.get("default_fusion") == "meta"
     if isinstance(exc, (yastn.YastnError, ValueError)) and (meta_cfg or any(has_meta_legs(task.slots.get(s)) for s in rec["in"])):
-        core.known_hit("K-C06-meta-product")
+        core.known_hit("K-%s-meta-product" % getattr(core.current_world(), "prop", "C06"))
         return True
     return False
 
@@ -275,7 +275,10 @@ def compare_dense(task, x, sh, prop, what, tol=1e-10):
     if sh is None:
         return
     if isinstance(x, mps.MpsMpoOBC):
-        got = dense_of(task, x)
+        try:
+            got = dense_of(task, x)
+        except Exception as e:  # noqa: BLE001 -- a returned MPS/MPO that cannot be contracted is malformed
+            raise V(prop, "object-cannot-be-contracted", "%s: contracting the returned object raises %s: %s" % (what, type(e).__name__, str(e)[:120]))
         if got.shape != np.asarray(sh).shape:
             raise V(prop, "shape", "%s: dense shape %s, model %s" % (what, got.shape, np.asarray(sh).shape))
         sc = max(1.0, float(np.max(np.abs(sh))) if np.asarray(sh).size else 1.0)
@@ -726,6 +729,9 @@ class MInplace(e1.Op):
         N = v.N
         if v.pC is None:
             kind = rng.choice(["canonize_", "canonize_", "orthogonalize_site_", "orthogonalize_site_", "truncate_nb", "truncate_bind"])
+        elif v.A[v.pC].isdiag:
+            # already diagonalised central block: only absorbing it is meaningful (svd of a diagonal tensor is not supported)
+            kind = rng.choice(["absorb_central_", "absorb_central_", "canonize_"])
         else:
             kind = rng.choice(["absorb_central_", "absorb_central_", "diagonalize_nb", "diagonalize_bind", "canonize_"])
         args = {"kind": kind, "to": rng.choice(["first", "last"]), "normalize": rng.random() < 0.5}
@@ -733,7 +739,9 @@ class MInplace(e1.Op):
             args["n"] = rng.randrange(N)
         if kind in ("truncate_bind", "diagonalize_bind"):
             args["opts"] = rng.choice([{"D_total": rng.randint(1, 3)}, {"D_total": rng.randint(1, 4), "tol": 1e-14}, {"tol": rng.choice([0.05, 0.2, 0.5])},
-                                       {"D_block": 1}, {"D_total": 2, "tol_block": 0.3}])
+                                       {"D_block": 1}, {"D_total": 2, "tol_block": 0.3},
+                                       # options meant for the partial-SVD policies are legal in opts_svd: the truncation must stay honest
+                                       {"policy": "lowrank", "D_block": rng.randint(1, 2)}, {"policy": "block_arnoldi", "D_block": 1, "D_total": 3}])
         if kind in ("truncate_nb", "diagonalize_nb"):
             args["opts"] = rng.choice([{"tol": 1e-15}, {"D_total": 4096}, {"D_total": 4096, "tol": 1e-15, "D_block": 4096}])
         if kind == "truncate_bind":
@@ -858,15 +866,19 @@ class MSpectrum(e1.Op):
         return 0
 
     def gen(self, g):
-        a = pick(g, lambda v, sh: sh is not None and v.pC is None)
+        a = pick(g, lambda v, sh: sh is not None)
         if a is None:
             return None
-        return {"op": "m_spectrum", "in": [a], "args": {"alpha": g.rng.choice([1, 1, 2, 0.5])}}
+        return {"op": "m_spectrum", "in": [a], "args": {"alpha": g.rng.choice([1, 1, 2, 0.5]), "only_norm": g.val(a).pC is not None}}
 
     def run(self, task, rec, ins):
         psi = ins[0]
         before = {k: core.tensor_canon(v) for k, v in psi.A.items()}
-        self._res = (psi.norm(), psi.get_Schmidt_values(), psi.get_entropy(alpha=rec["args"]["alpha"]))
+        if rec["args"].get("only_norm"):
+            # a central block is pending (mid-sweep state): norm() must still be the norm of the represented state
+            self._res = (psi.norm(), None, None)
+        else:
+            self._res = (psi.norm(), psi.get_Schmidt_values(), psi.get_entropy(alpha=rec["args"]["alpha"]))
         after = {k: core.tensor_canon(v) for k, v in psi.A.items()}
         if before != after and not getattr(core.current_world(), "generating", False):
             raise V("C15", "O1-operand-modified", "norm()/get_Schmidt_values()/get_entropy() changed the state they were called on")
@@ -884,7 +896,7 @@ class MSpectrum(e1.Op):
         what = "op %d norm/Schmidt/entropy" % rec["id"]
         if abs(float(nrm) - ref_n) > 1e-10 * max(1.0, ref_n):
             raise V(prop, "norm", "%s: norm() = %.12g, dense norm %.12g" % (what, float(nrm), ref_n))
-        if ref_n == 0:
+        if ref_n == 0 or schmidt is None:
             return []
         alpha = rec["args"]["alpha"]
         for cut in range(N + 1):
@@ -898,10 +910,11 @@ class MSpectrum(e1.Op):
             b_[:min(k, len(s_ref))] = s_ref[:k]
             if not np.allclose(a_, b_, atol=1e-9):
                 raise V(prop, "schmidt-values", "%s: Schmidt values at cut %d %s differ from the SVD of the dense state %s" % (what, cut, a_[:6], b_[:6]))
-            p = s_ref[s_ref > 1e-12] ** 2
+            p = s_ref ** 2
             p = p / np.sum(p)
+            p = p[p > 1e-12]          # documented: probabilities below tol=1e-12 are discarded
             e_ref = float(-np.sum(p * np.log2(p))) if alpha == 1 else float(np.log2(np.sum(p ** alpha)) / (1 - alpha))
-            if abs(float(ent[cut]) - e_ref) > 1e-7:
+            if abs(float(ent[cut]) - e_ref) > 2e-6:
                 raise V(prop, "entropy", "%s: entropy(alpha=%s) at cut %d = %.10g, dense %.10g" % (what, alpha, cut, float(ent[cut]), e_ref))
         return []
 
